@@ -251,7 +251,9 @@ def model_totals(c):
     pm = c.parent_model
     ran = pm["ran"]
     nfail = len(pm["failures"])
-    nerr = len(pm["errors"])
+    # ["child", l] entries only mark "the child of layer l reported failures/errors" for the parent's
+    # stop-on-error decision; what the child reported is added from its own model below
+    nerr = len([e for e in pm["errors"] if not (isinstance(e, list) and e and e[0] == "child")])
     skipped = pm["skipped"]
     failed = pm["failed"]
     for key, cm in c.child_models.items():
